@@ -43,3 +43,89 @@ pub fn trg_fields_ok(p: &det::trigger::TrgV3Packet, s: &[u8]) -> bool {
         && p.drift_veto_counter() <= p.input_counter()
 }
 
+
+// ---------------------------------------------------------------- ADC v3 (C02)
+pub fn be16(s: &[u8], o: usize) -> i64 { (s[o] as i64) * 256 + s[o + 1] as i64 }
+pub fn bei16(s: &[u8], o: usize) -> i64 { let v = be16(s, o); if v >= 32768 { v - 65536 } else { v } }
+pub fn be32(s: &[u8], o: usize) -> i64 { be16(s, o) * 65536 + be16(s, o + 2) }
+pub fn bei32(s: &[u8], o: usize) -> i64 { let v = be32(s, o); if v >= 0x8000_0000 { v - 0x1_0000_0000 } else { v } }
+
+/// the eight Alpha16 boards of the documentation (name, MAC)
+pub const SPEC_ALPHA16: [(&str, [u8; 6]); 8] = [
+    ("09", [216, 128, 57, 104, 55, 76]),
+    ("10", [216, 128, 57, 104, 170, 37]),
+    ("11", [216, 128, 57, 104, 172, 127]),
+    ("12", [216, 128, 57, 104, 79, 167]),
+    ("13", [216, 128, 57, 104, 202, 166]),
+    ("14", [216, 128, 57, 104, 142, 130]),
+    ("16", [216, 128, 57, 104, 111, 162]),
+    ("18", [216, 128, 57, 104, 142, 82]),
+];
+pub fn alpha16_known_mac(m: &[u8]) -> bool {
+    let mut i = 0;
+    while i < 8 {
+        if m == &SPEC_ALPHA16[i].1[..] { return true; }
+        i += 1;
+    }
+    false
+}
+
+pub fn adc_ok(s: &[u8]) -> bool {
+    if s.len() < 16 { return false; }
+    if !(s[0] == 1 && s[1] == 3 && s[4] <= 7) { return false; }
+    if !(s[5] <= 15 || (128 <= s[5] && s[5] <= 159)) { return false; }
+    let footer = be16(s, s.len() - 4);
+    let keep_last = footer & 0xFFF;
+    let keep_bit = (footer >> 12) & 1 == 1;
+    let supp = (footer >> 13) & 1 == 1;
+    if s.len() == 16 { return supp && !keep_bit && keep_last == 0; }
+    if s.len() < 36 { return false; }
+    if !(s[12] == 0 && s[13] == 0) { return false; }
+    if !alpha16_known_mac(&s[14..20]) { return false; }
+    if (s.len() - 36) % 2 != 0 { return false; }
+    let n = ((s.len() - 36) / 2) as i64;
+    if n < 64 { return false; }
+    let mut sum: i64 = 0;
+    let mut i = 0;
+    while i < 64 { sum += bei16(s, 32 + 2 * i); i += 1; }
+    if bei16(s, s.len() - 2) != sum.div_euclid(64) { return false; }
+    let req = be16(s, 6);
+    let last_index = (keep_last - 1) * 2 - 2;
+    if supp { keep_bit && keep_last >= 34 && n > last_index && n <= req - 2 }
+    else {
+        (!keep_bit || (keep_last >= 34 && n > last_index)) && (keep_bit || keep_last == 0) && n == req - 2
+    }
+}
+
+pub fn adc_fields_ok(p: &det::alpha16::AdcV3Packet, s: &[u8]) -> bool {
+    use det::alpha16::ChannelId;
+    let footer = be16(s, s.len() - 4);
+    let chan_ok = match p.channel_id() {
+        ChannelId::A16(c) => s[5] < 128 && det::alpha16::Adc16ChannelId::try_from(s[5]).map(|x| x == c).unwrap_or(false),
+        ChannelId::A32(c) => s[5] >= 128 && det::alpha16::Adc32ChannelId::try_from(s[5] - 128).map(|x| x == c).unwrap_or(false),
+    };
+    let common = p.packet_type() == 1 && p.packet_version() == 3
+        && p.accepted_trigger() as i64 == be16(s, 2)
+        && det::alpha16::ModuleId::try_from(s[4]).map(|m| m == p.module_id()).unwrap_or(false)
+        && chan_ok
+        && p.requested_samples() as i64 == be16(s, 6)
+        && p.suppression_baseline() as i64 == bei16(s, s.len() - 2)
+        && p.keep_last() as i64 == footer & 0xFFF
+        && p.keep_bit() == ((footer >> 12) & 1 == 1)
+        && p.is_suppression_enabled() == ((footer >> 13) & 1 == 1);
+    if s.len() == 16 {
+        common && p.event_timestamp() as i64 == be32(s, 8) && p.board_id().is_none() && p.trigger_offset().is_none()
+            && p.build_timestamp().is_none() && p.waveform().is_empty()
+    } else {
+        let n = (s.len() - 36) / 2;
+        let mut wave_ok = p.waveform().len() == n;
+        let mut i = 0;
+        while wave_ok && i < n { wave_ok = p.waveform()[i] as i64 == bei16(s, 32 + 2 * i); i += 1; }
+        common
+            && p.event_timestamp() as u128 == (be32(s, 20) as u128) * 0x1_0000_0000u128 + be32(s, 8) as u128
+            && p.board_id().map(|b| b.mac_address()[..] == s[14..20]).unwrap_or(false)
+            && p.trigger_offset().map(|t| t as i64 == bei32(s, 24)).unwrap_or(false)
+            && p.build_timestamp().map(|t| t as i64 == be32(s, 28)).unwrap_or(false)
+            && wave_ok
+    }
+}
